@@ -84,8 +84,8 @@ def part_spec(ctx):
         if r.violation:
             raise tlc.MachineryError("Sampler (%s, %s) violates its own invariant %s: %s" % (variant, nxt, r.violation, r.trace[-1:] if r.trace else ""))
         general = nxt == "NextARG"
-        ctx.tlc(r, "Sampler AR %s %s" % (variant, nxt), vacuity_actions=["BatchG", "ThinGStep" if general else "ThinStep", "Truncate"])
-        ctx.part("spec_sampler_%s%s" % (variant, "_general" if general else ""), states=r.distinct, batches=r.coverage.get("BatchG", 0),
+        ctx.tlc(r, "Sampler AR %s %s" % (variant, nxt), vacuity_actions=["BatchGStep" if general else "BatchG", "ThinGStep" if general else "ThinStep", "Truncate"])
+        ctx.part("spec_sampler_%s%s" % (variant, "_general" if general else ""), states=r.distinct, batches=r.coverage.get("BatchGStep" if general else "BatchG", 0),
                  thins=r.coverage.get("ThinGStep" if general else "ThinStep", 0), truncations=r.coverage.get("Truncate", 0), max_batches=maxb, max_weight=maxw)
 
 
@@ -859,4 +859,11 @@ def run(ctx):
 
 
 def replay(ctx, path):
+    """re-execute the run that produced the replay file (same tier and seed: every random choice is derived from them)"""
+    with open(path) as f:
+        d = json.load(f)
+    ctx.tier, ctx.seed = d.get("tier", ctx.tier), int(d.get("seed", ctx.seed))
+    from .. import prelude
+
+    prelude.seed_all(ctx.seed)
     run(ctx)
